@@ -53,6 +53,7 @@ def run(oc, tier, seed, model_available, escalate):
         pool = sorted(set(list(tree) + list(ru.gen_tree(rng, nfiles=4)) + ["photos", "photos/img1.raw", "d", "d/inner.txt", "D2", "D2/x/y.bin"]))
         nops = rng.randint(1, 12)
         hist = []
+        nstore = 0
         # a share of histories starts with a scripted pattern: a recorded file is replaced by a directory of the same name (or the reverse)
         script = []
         if i % 5 == 0:
@@ -84,7 +85,21 @@ def run(oc, tier, seed, model_available, escalate):
                 m = ru.BASE_NS + (j + 1) * 10**9
                 cur[p] = (c, m)
                 allc.append(c)
-                ru.write_tree(root, {p: (c, m)})
+                if "/" not in p and rng.random() < 0.25:
+                    # the file is a symbolic link to a regular file kept elsewhere (the walk lists it as a file, its row is that of the target's content)
+                    store = os.path.join(d, "store")
+                    os.makedirs(store, exist_ok=True)
+                    nstore += 1
+                    sp_ = os.path.join(store, "s%d.bin" % nstore)
+                    with open(sp_, "wb") as f_:
+                        f_.write(c)
+                    os.utime(sp_, ns=(m, m))
+                    if os.path.lexists(os.path.join(root, p)):
+                        os.remove(os.path.join(root, p))
+                    os.symlink(os.path.join("..", "store", "s%d.bin" % nstore), os.path.join(root, p))
+                    oc.count("file added as a symbolic link")
+                else:
+                    ru.write_tree(root, {p: (c, m)})
                 optoks.append("A:%s:%s:%d" % (hx(p.encode()), hx(c), m))
                 hist.append("add")
             elif k == "D":
